@@ -64,6 +64,8 @@ pub struct BodyPlan {
     /// the charset above is the library's own fallback (no charset declared, none configured): read through
     /// plain `text_reader()`
     pub text_charset_implicit: bool,
+    /// path of the request URL
+    pub url_path: &'static str,
     /// which `std::io::Read` entry point the size schedule goes through: 0 = `read`, 1 = `read_vectored`
     /// (two slices), 2 = `take(n).read_to_end()` (waits for n bytes: not for the "never waits" checks),
     /// 3 = two reads of the schedule, then `read_to_end` / `read_to_string` for the rest
@@ -270,6 +272,7 @@ pub fn gen_plan(g: &mut G, max_payload: usize) -> BodyPlan {
         prelude: if (len + nsegs) % 7 == 3 { Some((len / 3).min(5000)) } else { None },
         text_charset: None,
         text_charset_implicit: false,
+        url_path: "/body",
         // derived, not drawn: recorded tapes of earlier findings keep their meaning
         read_api: match (len * 7 + nsegs) % 6 {
             0 => 1,
@@ -323,6 +326,7 @@ pub fn plan_from_payload(g: &mut G, payload: Vec<u8>, mut headers: Vec<(String, 
         prelude: None,
         text_charset: None,
         text_charset_implicit: false,
+        url_path: "/body",
         read_api: 0,
         damage: String::new(),
         cut_at: None,
@@ -588,7 +592,7 @@ pub fn caller(plan: &BodyPlan, stop_on_block: bool) -> Observed {
 
 pub fn caller_with(plan: &BodyPlan, stop_on_block: bool, tweak: impl FnOnce(attohttpc::RequestBuilder) -> attohttpc::RequestBuilder) -> Observed {
     let mut o = Observed::default();
-    let url = if plan.tls { format!("https://{}/body", TLS_HOST_NAME) } else { format!("http://{}/body", if plan.host_is_domain { HOST_NAME } else { HOST_IP }) };
+    let url = if plan.tls { format!("https://{}{}", TLS_HOST_NAME, plan.url_path) } else { format!("http://{}{}", if plan.host_is_domain { HOST_NAME } else { HOST_IP }, plan.url_path) };
     let mut rb = attohttpc::RequestBuilder::new(attohttpc::Method::from_bytes(plan.method.as_bytes()).unwrap(), &url)
         .read_timeout(Duration::from_millis(plan.read_timeout_ms));
     if plan.tls {
